@@ -60,6 +60,7 @@ fn leading_spaces_n<const N: usize>() {
 #[kani::unwind(8)]
 #[kani::stub(core::str::validations::run_utf8_validation, stdlite::run_utf8_validation)]
 #[kani::stub(core::slice::memchr::memchr, stdlite::memchr)]
+#[kani::stub(str::trim, stdlite::trim_exact)]
 fn c12_leading_spaces_4() {
     leading_spaces_n::<4>()
 }
